@@ -506,7 +506,8 @@ class RaggedView2:
         # slices clamp); integers beyond the index width could not be combined with the index arrays
         far = int(np.max(self.lengths)) + 1 if len(self.lengths) else 1
         near = lambda v: v if v is None else int(max(-far, min(far, v)))
-        col_slice, step = slice(near(col_slice.start), near(col_slice.stop), col_slice.step), near(step)
+        step = near(step)
+        col_slice = slice(near(col_slice.start), near(col_slice.stop), step)  # (plain python integers from here on)
         if step > 0:
             return self._pos_col_slice(slice(col_slice.start, col_slice.stop, step))
         col_slice_start = col_slice.start
